@@ -689,5 +689,49 @@ func genC09(e *emitter, tier string, seed uint64) map[string]interface{} {
 		}
 	}
 	e.op("gz.note md-histories", "ok", "history", true)
+	// 7. the budget a v2 frame really gets: blocks of exactly 65535, 65536 and 65537 bytes through the real Pack and back. The length field of the
+	// frame has 16 bits; the budget Pack hands to the encoder must fit it, so that a block that does not fit loses whole pairs — never its length
+	for _, total := range []int{65534, 65535, 65536, 65537} {
+		for _, npairs := range []int{2, 16} {
+			// npairs pairs, one-byte keys, values >= 128 bytes: a pair takes 2 + 2 + len(v) bytes
+			per := (total - 4*npairs) / npairs
+			vals := map[string]string{}
+			rest := total - 4*npairs
+			for j := 0; j < npairs; j++ {
+				n := per
+				if j == npairs-1 {
+					n = rest
+				}
+				rest -= n
+				vals[string(rune('a'+j))] = string(bytes.Repeat([]byte{byte('A' + j)}, n))
+			}
+			ctx := newCtx(2, protocol.CodecProtobuf)
+			pkv, err := protocol.NewPush(ctx, 77, []byte("body"))
+			if err != nil {
+				continue
+			}
+			pkv.Metadata.Values = vals
+			want := map[string]string{}
+			{
+				m := &protocol.Metadata{}
+				_ = m.UnmarshalValues((&protocol.Metadata{Values: vals}).MarshalValues(65535))
+				want = m.Values
+			}
+			frame, perr := proto(2).Pack(ctx, &pkv)
+			idx := e.op(fmt.Sprintf("gz.note v2-budget total=%d pairs=%d", total, npairs), "ok", "v2-budget", true)
+			if perr != nil {
+				e.fail(idx, "budget", fmt.Sprintf("v2 Pack of a packet whose metadata encodes to %d bytes failed: %v", total, perr))
+				continue
+			}
+			dec, derr := proto(2).UnpackBytes(newCtx(2, protocol.CodecProtobuf), frame)
+			if derr != nil || dec == nil || !bytes.Equal(dec.Body, []byte("body")) || showMap(dec.Metadata.Values) != showMap(want) {
+				got := "-"
+				if dec != nil {
+					got = fmt.Sprintf("%d pairs, body %q", len(dec.Metadata.Values), dec.Body)
+				}
+				e.fail(idx, "budget", fmt.Sprintf("a v2 packet whose %d metadata pairs encode to %d bytes: the frame decodes to %s (err=%v); the pairs that fit 65535 bytes are %d and the body is \"body\"", npairs, total, got, derr, len(want)))
+			}
+		}
+	}
 	return map[string]interface{}{"exhaustive_subdomains": "all 2^16 two-byte length prefixes; thorough: every string length 0..32768"}
 }
